@@ -114,6 +114,11 @@ ranges, lengths, byte values or sample inputs anywhere in this module)
   the required outcome, by three-valued evaluation under the named assumption "the seed is some bytes value of length
   16" (truthy, not None, len 16; nothing about its content); any other content test that controls such an exit ->
   undecided.  No seed value is enumerated or tried.
+
+* R12 (round 8, seeded C06o) a magic test made on the raw plaintext covers the whole field: a suffix / prefix / slice comparison of the
+  name handed to BeaconMetadata(..) with constant bytes, inside the first four bytes, must compare [0:4] with 00 00 BE EF; a
+  narrower comparison that is the only magic test (no `.magic` read) is violated, everything else stays with R2 (undecided).
+  Technique: syntax-tree query, constant folding of the bounds and of module-level byte constants (`(K).to_bytes(n, order)` folded).
 """
 
 from __future__ import annotations
@@ -1227,7 +1232,7 @@ def run(ctx):
     ]
     from csverif import AnalysisError
 
-    for rule in (r1, r2, r3_r4, r5, r6, r8, r9, r10, r11):
+    for rule in (r1, r2, r3_r4, r5, r6, r8, r9, r10, r11, r12):
         try:
             rule(ctx)
         except AnalysisError:
@@ -3077,3 +3082,77 @@ def r11(ctx):
             else:
                 ctx.undecided("R11", "DOM", f, text, f"{what}; whether both outcomes occur among the 16-byte seeds is not decided", st)
     ctx.rep.count("seed_content_subjects", n_subjects, floor=3)
+
+
+# ============================================================================================================= R12
+def r12(ctx):
+    """A magic test made on the raw plaintext covers the whole field (round 8, seeded C06o).  The magic is the unsigned 32-bit
+    big-endian field at offset 0 (R1 reads that from the C definition).  A test `<pt>[a:b].endswith(K)` / `.startswith(K)` /
+    `<pt>[a:b] == K` / `!= K` on the name that is handed to BeaconMetadata(..) in decrypt_metadata, with constant bounds that lie in
+    the first four bytes and a constant bytes K, decides the magic only if it compares the four bytes [0:4] with 00 00 BE EF; a
+    comparison of fewer bytes (a suffix / prefix test with a shorter K, a narrower slice) accepts every plaintext whose remaining
+    magic bytes are arbitrary.  Violated only for such a narrower comparison that is the *only* magic test (no `.magic` read in the
+    function); anything else is left to R2 (which reports raw-plaintext computations as undecided)."""
+    f = ctx.repo.func("c2.decrypt_metadata")
+    ptnames = set()
+    for c in fn_calls(f.node):
+        if dotted(c.func) and dotted(c.func).split(".")[-1] == "BeaconMetadata" and len(c.args) == 1 and isinstance(c.args[0], ast.Name):
+            ptnames.add(c.args[0].id)
+    if not ptnames:
+        return
+    has_field_test = any(isinstance(n, ast.Attribute) and n.attr == "magic" for n in ast.walk(f.node))
+    mod_consts = {}
+    for st in ctx.repo.module("c2").tree.body if hasattr(ctx.repo.module("c2"), "tree") else []:
+        if isinstance(st, ast.Assign) and len(st.targets) == 1 and isinstance(st.targets[0], ast.Name):
+            mod_consts[st.targets[0].id] = st.value
+
+    def kbytes(e, depth=0):
+        if isinstance(e, ast.Name) and e.id in mod_consts and depth < 3:
+            return kbytes(mod_consts[e.id], depth + 1)
+        if isinstance(e, ast.Constant) and isinstance(e.value, bytes):
+            return e.value
+        if isinstance(e, ast.Call) and isinstance(e.func, ast.Attribute) and e.func.attr == "to_bytes" and len(e.args) == 2 and not e.keywords:
+            try:
+                v, n, bo = const_eval(e.func.value), const_eval(e.args[0]), const_eval(e.args[1])
+                return int(v).to_bytes(int(n), bo)
+            except Exception:
+                return None
+        try:
+            v = const_eval(e)
+            return v if isinstance(v, bytes) else None
+        except Exception:
+            return None
+
+    def window(e):
+        if isinstance(e, ast.Subscript) and isinstance(e.value, ast.Name) and e.value.id in ptnames and isinstance(e.slice, ast.Slice) and e.slice.step is None:
+            try:
+                lo = 0 if e.slice.lower is None else const_eval(e.slice.lower)
+                hi = const_eval(e.slice.upper) if e.slice.upper is not None else None
+            except Exception:
+                return None
+            if isinstance(lo, int) and isinstance(hi, int) and 0 <= lo < hi <= 4:
+                return lo, hi
+        return None
+
+    for n in ast.walk(f.node):
+        covered = None
+        k = None
+        if isinstance(n, ast.Call) and isinstance(n.func, ast.Attribute) and n.func.attr in ("endswith", "startswith") and len(n.args) == 1:
+            w = window(n.func.value)
+            k = kbytes(n.args[0])
+            if w and k is not None and 0 < len(k) <= w[1] - w[0]:
+                covered = (w[1] - len(k), w[1]) if n.func.attr == "endswith" else (w[0], w[0] + len(k))
+        elif isinstance(n, ast.Compare) and len(n.ops) == 1 and isinstance(n.ops[0], (ast.Eq, ast.NotEq)):
+            w = window(n.left)
+            k = kbytes(n.comparators[0])
+            if w and k is not None and len(k) == w[1] - w[0]:
+                covered = w
+        if covered is None:
+            continue
+        full = covered == (0, 4) and k == MAGIC.to_bytes(4, "big")
+        if full:
+            ctx.ob("R12", "AGREE", f, "raw magic test covers the field", True, f"`{src(n)}` compares the plaintext bytes [0:4] with {k.hex()}", n)
+        elif not has_field_test:
+            ctx.ob("R12", "AGREE", f, "raw magic test covers the field", False,
+                   f"`{src(n)}` compares only the plaintext bytes [{covered[0]}:{covered[1]}] with {k.hex()} and the parsed `magic` field is not tested: the magic is an unsigned "
+                   f"32-bit field at offset 0, every blob whose other magic bytes are arbitrary (0x1234BEEF) is returned as genuine metadata", n)
